@@ -44,7 +44,7 @@ def sparse_case(rng: random.Random) -> Dict[str, Dict[str, Any]]:
     """Directed: buys in some years, disposals / transfers in other years only, gaps, per-asset year sets differ."""
     hists = {}
     for asset in ("AAA", "BBB", "CCC")[: rng.randint(1, 3)]:
-        b = families.HB(asset=asset, exchanges=("Coinbase", "Kraken"), holders=("Alice",))
+        b = families.HB(asset=asset, exchanges=("Coinbase", "Coinbase_Pro"), holders=("Pro_Bob",))
         years = sorted(rng.sample(range(2015, 2025), rng.randint(2, 6)))
         buy_years = [years[0]] + [y for y in years[1:] if rng.random() < 0.4]
         held = 0
@@ -70,7 +70,7 @@ def sparse_case(rng: random.Random) -> Dict[str, Dict[str, Any]]:
         if held >= 2 and rng.random() < 0.6:
             y = rng.choice(years[1:]) if len(years) > 1 else years[0]
             last = max(parse_ts(r["ts"]) for r in b.rows)
-            b.move(last + timedelta(days=400 if rng.random() < 0.5 else 3), 1, rng.choice(("1", "0.99")), 100, ("Coinbase", "Alice"), ("Kraken", "Alice"))
+            b.move(last + timedelta(days=400 if rng.random() < 0.5 else 3), 1, rng.choice(("1", "0.99")), 100, ("Coinbase", "Pro_Bob"), ("Coinbase_Pro", "Pro_Bob"))
         hists[asset] = b.done(rng, shuffle=True)
     return hists
 
